@@ -388,7 +388,7 @@ func runC09SetReadOnlyClose(attempts int) (sig, msg string, fired int) {
 
 func init() {
 	Registry["C09"] = func(c *Ctx) {
-		c.Res.Rule = "A: single-client scripts (put, sync put, large batch, explicit transaction open/put/commit/discard, CompactRange, get, iterator) with one injected failure window (kind × file type × first occurrence × length × with/without effect) on journal/manifest/table create, write, sync, remove; after every return the lock state (verif export) must be free or owned by the open transaction; after healing, Put and Close must return; D: with the level-0 count at WriteL0PauseTrigger and every table compaction failing, OpenTransaction / a large batch return the error and the calls issued after the failures stop must return; E: SetReadOnly while a memdb flush / a table compaction sits in its retry loop after failing table creations (failures going on or stopping right after SetReadOnly, Close afterwards or started between SetReadOnly's two selects): SetReadOnly, every later Put/Delete/Write/large Write/OpenTransaction/CompactRange/Get and Close must return, and after a nil SetReadOnly no write-side call may succeed; F: a table compaction reports a corruption while SetReadOnly is between its two selects (yield point), then Close: both return and Close keeps the write-lock token (defect repaired by 832d000); B: 4–24 clients mixing Put, large Write, transactions, CompactRange and readers racing one Close, no faults; every call under a watchdog; non-trivial = the fault window was reached or Close raced live clients; distinct by configuration"
+		c.Res.Rule = "A: single-client scripts (put, sync put, large batch, explicit transaction open/put/commit/discard, CompactRange, get, iterator) with one injected failure window (kind × file type × first occurrence × length × with/without effect) on journal/manifest/table create, write, sync, remove; after every return the lock state (verif export) must be free or owned by the open transaction; after healing, Put and Close must return; D: with the level-0 count at WriteL0PauseTrigger and every table compaction failing, OpenTransaction / a large batch return the error and the calls issued after the failures stop must return; E: SetReadOnly while a memdb flush / a table compaction sits in its retry loop after failing table creations (failures going on or stopping right after SetReadOnly, Close afterwards or started between SetReadOnly's two selects): SetReadOnly, every later Put/Delete/Write/large Write/OpenTransaction/CompactRange/Get and Close must return, and after a nil SetReadOnly no write-side call may succeed; F: a table compaction reports a corruption while SetReadOnly is between its two selects (yield point), then Close: both return and Close keeps the write-lock token (defect repaired by 832d000); B: 4–24 clients mixing Put, large Write, transactions, CompactRange and readers racing one Close, no faults; G: one kind of write-side call (transactions incl. a client that takes ErrClosed from Commit as final and never calls Discard, Put/Delete/Write on a DB made read-only by SetReadOnly or Options.ReadOnly, SetReadOnly, more closers, a mix) racing Close at yield points (x.write.ok, x.otx.register, x.close.lock): Close and every call return, nothing panics; every call under a watchdog; non-trivial = the fault window was reached or Close raced live clients; distinct by configuration"
 		kinds := []stor.Kind{stor.OpSync, stor.OpWrite, stor.OpCreate, stor.OpRemove}
 		ftypes := []storage.FileType{storage.TypeManifest, storage.TypeJournal, storage.TypeTable}
 		scripts := [][]string{
@@ -429,6 +429,9 @@ func init() {
 		if !c.Hung {
 			runC09ReadOnly(c)
 		}
+		// calls racing Close that could leave Close (or themselves) hanging: transactions opened behind Close's back,
+		// writes on a read-only DB taking the lock given back for Close (c18race.go; the whole campaign is C18's)
+		runCloseRaces(c, time.Duration(c.Scale(5, 60))*time.Second, true)
 		n := c.Scale(70, 1500)
 		for i := 0; i < n && c.TimeLeft() && !c.Hung; i++ {
 			r := c.R.Fork()
